@@ -2,7 +2,7 @@
     list, prod, unit, sumbool mapped to OCaml's; N/positive/nat stay the
     extracted datatypes; no Extract Constant). *)
 From Coq Require Import Extraction ExtrOcamlBasic.
-From Yk Require Import ListAux Word64 PermDefs VersionDefs KeyDefs ValueDefs TreeDefs ScanDefs SysDefs SpecDefs MemDefs IScanDefs EpochDefs SessionDefs LinDefs BorderDefs ChainDefs.
+From Yk Require Import ListAux Word64 PermDefs VersionDefs KeyDefs ValueDefs TreeDefs ScanDefs SysDefs SpecDefs MemDefs IScanDefs EpochDefs SessionDefs LinDefs BorderDefs ChainDefs ChainLimDefs.
 Extraction Language OCaml.
 Extraction "ykmodel.ml"
   N.add N.mul N.div_eucl N.eqb N.ltb N.leb N.of_nat N.to_nat
@@ -23,4 +23,5 @@ Extraction "ykmodel.ml"
   mem_usage shape_stats iscan_all iscan_open iscan_next full_key
   lin_check run_seq respects_rt
   bstep brun binit pending_result
-  cstep crun cinit idle_scan cover all_keys find_node mem live first_live after before.
+  cstep crun cinit idle_scan cover all_keys find_node mem live first_live after before
+  lstep lrun linit idle_lscan.
